@@ -102,14 +102,8 @@ def gaps : List (String × SrcSet) := [
   ("small-string-coerced", .ofString "s"),
   ("small-string-trimmed", .ofString "s"),
   ("small-slice-prefault", .ofString "s"),
-  -- container / union / literal / network-format schemas ignore their own message for their type issue
-  ("type-array", .ofString "s"),
-  ("type-literal", .ofString "s"),
-  ("union", .ofString "s"),
-  ("union-discriminated", .ofString "s"),
-  ("format-ipv4-type", .ofString "s"),
-  ("format-url-type", .ofString "s"),
-  ("union-xor", .ofString "s"),
+  -- (Array, Literal, Union, Xor, DiscriminatedUnion, IPv4, URL ignored their constructor message until 453f053, 67fecb7,
+  --  455c79d, 3f5a91c: no entry any more)
   -- container-level issues (the per-parse map reaches them since 7990727; the schema's own message still does not)
   ("small-slice", .ofString "s"),
   ("big-slice", .ofString "s"),
@@ -254,7 +248,6 @@ def siteGaps : List (String × SrcSet) := [
   ("types/discriminated_union.go:ZodDiscriminatedUnion.Parse:CreateInvalidSchemaError", .ofString "s"),
   ("types/discriminated_union.go:ZodDiscriminatedUnion.Parse:CreateInvalidTypeError", .ofString "s"),
   ("types/discriminated_union.go:ZodDiscriminatedUnion.Parse:CreateMissingRequiredError", .ofString "s"),
-  ("types/discriminated_union.go:ZodDiscriminatedUnion.parseVariant:CreateInvalidUnionError", .ofString "s"),
   ("types/discriminated_union.go:ZodDiscriminatedUnion.StrictParse:CreateTypeConversionError", .ofString "s"),
   ("types/enum.go:ZodEnum.validateEnum:CreateIssue", .ofString "spgl"),
   ("types/function.go:newFuncTypeError:FinalizeIssue", .ofString "s"),
@@ -272,7 +265,6 @@ def siteGaps : List (String × SrcSet) := [
   ("types/lazy.go:ZodLazy.Parse:CreateInvalidTypeError", .ofString "s"),
   ("types/lazy.go:ZodLazy.extractPtr:Parse", .ofString "p"),
   ("types/lazy.go:newLazyTypeError:FinalizeIssue", .ofString "s"),
-  ("types/literal.go:ZodLiteral.validateLiteral:CreateInvalidTypeError", .ofString "s"),
   ("types/map.go:ZodMap.Parse:CreateTypeConversionError", .ofString "s"),
   ("types/map.go:ZodMap.StrictParse:CreateTypeConversionError", .ofString "s"),
   ("types/map.go:ZodMap.extractType:CreateNonOptionalError", .ofString "s"),
@@ -300,10 +292,8 @@ def siteGaps : List (String × SrcSet) := [
   ("types/tuple.go:ZodTuple.validateTupleForEngine:CreateTooSmallError", .ofString "s"),
   ("types/tuple.go:ZodTuple.validateTupleForEngine:CreateTooBigError", .ofString "s"),
   ("types/union.go:ZodUnion.validate:CreateInvalidSchemaError", .ofString "s"),
-  ("types/union.go:ZodUnion.validate:CreateInvalidUnionError", .ofString "s"),
   ("types/union.go:ZodUnion.StrictParse:CreateTypeConversionError", .ofString "s"),
   ("types/xor.go:ZodXor.validate:CreateInvalidSchemaError", .ofString "s"),
-  ("types/xor.go:ZodXor.validate:CreateInvalidUnionError", .ofString "s"),
   ("types/xor.go:ZodXor.validate:CreateInvalidXorError", .ofString "s"),
   ("types/xor.go:ZodXor.StrictParse:CreateTypeConversionError", .ofString "s")]
 
